@@ -23,8 +23,10 @@ import (
 	"math"
 	"reflect"
 	"strconv"
+	"strings"
 	"testing"
 	"time"
+	"unicode/utf8"
 
 	"github.com/paulmach/orb"
 	"github.com/paulmach/orb/geojson"
@@ -814,4 +816,37 @@ func TestEnumTypedValues(t *testing.T) {
 		}
 	}
 	stats.Subspace("dynamic types: every kind x 8 boundary numbers x {id, property, inside []interface{}, inside a map, foreign member} x {JSON, BSON}", idx, true)
+}
+
+// TestEnumSniffable (round M, class M3): every string of the sniffable table as
+// id, property value, property key, array element, nested key and foreign-member
+// value and name, in a single feature and in a collection, through the full
+// oracle (JSON and BSON): strings stay the same strings, byte for byte.
+func TestEnumSniffable(t *testing.T) {
+	assumptions()
+	var idx int64
+	for _, s := range sniffable {
+		if !utf8.ValidString(s) {
+			continue
+		}
+		sv := Val{T: "string", S: s}
+		k := strings.ReplaceAll(s, "\x00", "0")
+		f := Feat{ID: sv, Geom: gen.G{V: orb.Point{1, 2}}, Props: []KV{{K: k, V: sv}, {K: "list", V: Val{T: "array", A: []Val{sv, sv}}}, {K: "nested", V: Val{T: "object", O: []KV{{K: k, V: sv}}}}}}
+		fc := FColl{Features: []Feat{f, {ID: Val{T: "absent"}, Geom: gen.G{V: nil}, Props: []KV{{K: "id", V: sv}}}}, Extra: []KV{{K: "x", V: sv}}}
+		if k != "type" && k != "bbox" && k != "features" {
+			fc.Extra = append(fc.Extra, KV{K: k, V: Val{T: "array", A: []Val{sv}}})
+		}
+		for _, c := range []Case{{Kind: "feature", F: &f}, {Kind: "fc", FC: &fc}} {
+			idx++
+			if !stats.Mine(idx) {
+				continue
+			}
+			stats.Eval("TestEnumSniffable", 1)
+			stats.Class("string:sniffable shape (enumerated)")
+			stats.NonTrivial("sniff:" + gen.JSON(c))
+			c := c
+			stats.TryT(t, "TestEnumSniffable", c, func() error { return checkCase(c) })
+		}
+	}
+	stats.Subspace("type-sniffable strings (24-hex in three cases, 12/16-byte strings, UUIDs, numeric strings, literals, dates, base64, $-names, JSON texts, vocabulary) x {id, value, key, array element, nested key, foreign member} x {feature, collection}", idx, true)
 }
